@@ -86,6 +86,16 @@ func (p *Program) ClockKind(ex ast.Expr, decl *types.Func) (string, string) {
 	if fd == nil {
 		return "other:no-decl", ""
 	}
+	// an operand that lives in another function of the package (an argument list built by a helper): analyse it there
+	if ex != nil && (ex.Pos() < fd.Pos() || ex.Pos() > fd.End()) {
+		for _, f := range pk.Syntax {
+			for _, d := range f.Decls {
+				if ofd, ok := d.(*ast.FuncDecl); ok && ofd.Body != nil && ofd.Pos() <= ex.Pos() && ex.Pos() <= ofd.End() {
+					fd = ofd
+				}
+			}
+		}
+	}
 	return p.clockKindRec(ex, fd, pk, 0)
 }
 
@@ -446,4 +456,24 @@ func isMaxInstant(info *types.Info, fd *ast.FuncDecl, e ast.Expr, depth int) boo
 		}
 	}
 	return false
+}
+
+// declContaining: the declared function of package pkg whose source range contains pos.
+func (p *Program) declContaining(pkg string, pos token.Pos) *types.Func {
+	pk := p.Pkg(pkg)
+	if pk == nil {
+		return nil
+	}
+	for _, f := range pk.Syntax {
+		if pos < f.Pos() || pos > f.End() {
+			continue
+		}
+		for _, d := range f.Decls {
+			if fd, ok := d.(*ast.FuncDecl); ok && fd.Body != nil && fd.Pos() <= pos && pos <= fd.End() {
+				obj, _ := pk.TypesInfo.Defs[fd.Name].(*types.Func)
+				return obj
+			}
+		}
+	}
+	return nil
 }
